@@ -418,6 +418,62 @@ fn exec_call_inner(ctx: &mut Ctx, idx: usize, c: &Value, keep: &mut Option<Owned
             let r = bracket!(unsafe { pathrs_inroot_rename(rootraw, a.as_ptr(), b.as_ptr(), fl) });
             if r >= 0 { json!({"ok": true, "ret": r}) } else { capi_error(r) }
         }
+        // ------------------------------------------------------------------ kernel reference mutation
+        (_, "kmut") => {
+            // "the corresponding *at system call applied to the final path component inside the
+            // directory obtained by in-root resolution of the rest of the path", done by hand
+            let mut kd: Option<OwnedFd> = None;
+            let mut kd2: Option<OwnedFd> = None;
+            let res = libc::RESOLVE_IN_ROOT | libc::RESOLVE_NO_MAGICLINKS;
+            let d1 = kernel_openat2(rootraw, s(c, "dir"), libc::O_PATH as i64, res, &mut kd);
+            if !d1["ok"].as_bool().unwrap_or(false) {
+                return d1;
+            }
+            let dfd = kd.as_ref().unwrap().as_raw_fd();
+            let name = cs(s(c, "name"));
+            let mode = c.get("mode").and_then(|v| v.as_u64()).unwrap_or(0o644) as u32;
+            let sys = s(c, "sys");
+            let mut dfd2 = -1;
+            if matches!(sys, "link" | "rename") {
+                let d2 = kernel_openat2(rootraw, s(c, "dir2"), libc::O_PATH as i64, res, &mut kd2);
+                if !d2["ok"].as_bool().unwrap_or(false) {
+                    return d2;
+                }
+                dfd2 = kd2.as_ref().unwrap().as_raw_fd();
+            }
+            let name2 = cs(s(c, "name2"));
+            let rc: i64 = unsafe {
+                match sys {
+                    "mknod" => libc::mknodat(dfd, name.as_ptr(), libc::S_IFREG | mode, 0) as i64,
+                    "mkfifo" => libc::mknodat(dfd, name.as_ptr(), libc::S_IFIFO | mode, 0) as i64,
+                    "mkdir" => libc::mkdirat(dfd, name.as_ptr(), mode) as i64,
+                    "symlink" => {
+                        let t = cs(s(c, "target"));
+                        libc::symlinkat(t.as_ptr(), dfd, name.as_ptr()) as i64
+                    }
+                    // hardlink: (dir2, name2) is the existing object, (dir, name) the new entry
+                    "link" => libc::linkat(dfd2, name2.as_ptr(), dfd, name.as_ptr(), 0) as i64,
+                    "unlink" => libc::unlinkat(dfd, name.as_ptr(), 0) as i64,
+                    "rmdir" => libc::unlinkat(dfd, name.as_ptr(), libc::AT_REMOVEDIR) as i64,
+                    "rename" => libc::syscall(libc::SYS_renameat2, dfd, name.as_ptr(), dfd2, name2.as_ptr(), c.get("flags").and_then(|v| v.as_u64()).unwrap_or(0) as u32),
+                    "creat" => {
+                        let fl = c["oflags"].as_i64().unwrap_or(0) as i32 | libc::O_CREAT | libc::O_NOFOLLOW | libc::O_CLOEXEC | libc::O_NOCTTY;
+                        libc::openat(dfd, name.as_ptr(), fl, mode) as i64
+                    }
+                    _ => -1,
+                }
+            };
+            if rc < 0 {
+                return json!({"ok": false, "kind": "OsError", "errno": crate::tree::errno()});
+            }
+            if sys == "creat" {
+                let fd = rc as i32;
+                let v = describe_fd(fd);
+                *keep = Some(unsafe { OwnedFd::from_raw_fd(fd) });
+                return v;
+            }
+            json!({"ok": true})
+        }
         // ------------------------------------------------------------------ handles
         (_, "reopen") => {
             // reopen the fd returned by call `of` (optionally moved to descriptor number `dupto`)
